@@ -220,6 +220,63 @@ def check_case(config, triples, p, s, o, g=None, rp=None, memo=None, api="triple
     return None
 
 
+def compositions(p, X):
+    """Every way of the API to build a larger path from the path object X (AST p): operators and constructors, X as left and as right operand.
+    Returns [(AST of the composed path, how it was built, the composed rdflib path)]."""
+    out = []
+    for r in (("iri", "Q"), ("inv", ("iri", "P"))):
+        Rr = to_rdflib(r)
+        out += [(("seq", p, r), "X / r", X / Rr), (("seq", r, p), "r / X", Rr / X), (("alt", p, r), "X | r", X | Rr), (("alt", r, p), "r | X", Rr | X),
+                (("seq", p, r), "SequencePath(X, r)", SequencePath(X, Rr)), (("alt", p, r), "AlternativePath(X, r)", AlternativePath(X, Rr)),
+                (("seq", ("seq", p, r), r), "(X / r) / r", (X / Rr) / Rr), (("alt", ("alt", p, r), r), "(X | r) | r", (X | Rr) | Rr)]
+    out += [(("inv", p), "~X", ~X), (("star", p), "X * '*'", X * "*"), (("plus", p), "X * '+'", X * "+"), (("opt", p), "X * '?'", X * "?")]
+    if p[0] == "iri":
+        out.append((("neg", [p[1]], []), "-X", -X))
+    if p[0] == "alt" and p[1][0] == "iri" and p[2][0] == "iri":
+        out.append((("neg", [p[1][1], p[2][1]], []), "-X", -X))
+        for r in (("iri", "Q"),):
+            out.append((("alt", p, r), "X | r after -X", X | to_rdflib(r)))
+    return out
+
+
+def check_composition(config, triples, p, g=None, memo=None, horizon=5.0):
+    """Build larger paths from one path object and evaluate them and, afterwards, the object itself again: composing must not change what an operand denotes."""
+    if g is None:
+        g = build(config, triples)
+    nodes = relalg.nodes_of(triples)
+    key_of = {n: tkey(T(n)) for n in NODES + [ABSENT]}
+
+    def ev(rp):
+        with seams.watchdog(horizon):
+            return {(tkey(a), tkey(b)) for a, _, b in g.triples((None, rp, None))}
+
+    def ref(ast):
+        return {(key_of[x], key_of[y]) for x, y in relalg.answer(ast, triples, None, None, nodes, memo)}
+
+    X = to_rdflib(p)
+    viols = []
+    try:
+        want = ref(p)
+        if ev(X) != want:
+            return []  # (reported by the main sweep)
+        for ast, how, obj in compositions(p, X):
+            if has_inverse_negated(ast):
+                continue
+            got = ev(obj)
+            if got != ref(ast):
+                viols.append(("%s|composition|%s|composed-path-pairs-differ" % (config, how), {"path": shape(ast), "got": sorted(got), "expected": sorted(ref(ast))}))
+            again = ev(X)
+            if again != want:
+                viols.append(("%s|composition|%s|operand-denotes-another-relation-afterwards" % (config, how),
+                              {"operand": shape(p), "before": sorted(want), "after": sorted(again)}))
+                break
+    except seams.Timeout:
+        viols.append(("%s|composition|does-not-terminate" % config, {"shape": shape(p)}))
+    except Exception as e:  # noqa: BLE001
+        viols.append(("%s|composition|raises-%s" % (config, type(e).__name__), {"exc": repr(e)[:300], "shape": shape(p)}))
+    return viols
+
+
 def ends_reduced():
     terms = NODES + [ABSENT]
     return [(None, None)] + [(s, None) for s in terms] + [(None, o) for o in terms] + [(s, s) for s in terms]
@@ -230,6 +287,16 @@ def _batch(arg):
     viols = []
     n = 0
     nontriv = 0
+    if apis == ["composition"]:
+        for triples in graphs:
+            g = build(config, triples)
+            memo = {}
+            for p in paths:
+                n += 1
+                nontriv += 1 if triples else 0
+                for sig, det in check_composition(config, triples, p, g, memo):
+                    viols.append({"sig": sig, "case": {"composition": [config, triples, p]}, "detail": det})
+        return viols, n, nontriv
     E = ends_reduced() if (len(arg) > 4 and arg[4] == "reduced-ends") else ends()
     rpaths = [(p, to_rdflib(p)) for p in paths]
     for triples in graphs:
@@ -281,6 +348,10 @@ def run(ctx):
     for gsh in R.shards(fam, len(fam)):
         for psh in R.shards(d2, 16 if thorough else 8):
             work.append(("graph", gsh, psh, ["triples"]) + (() if thorough else ("reduced-ends",)))
+    # composing paths (operator and constructor API, operand left and right) must not change what the operand denotes
+    comp_paths = [p for p in d1 if not has_inverse_negated(p) and p[0] != "neg"]
+    for sh in R.shards(g3 if thorough else g2, jobs * 2):
+        work.append(("graph", sh, comp_paths, ["composition"]))
     # SPARQL slice: depth <= 1 x a family of graphs
     sp = [g for g in g3 if len(g) in (2, 3)][:: (11 if thorough else 61)]
     for gsh in R.shards(sp, len(sp)):
@@ -300,7 +371,7 @@ def run(ctx):
     ctx.cov["rule"] = ("Paths: atoms {P, Q, ^P, ^Q, !P, !(P|Q), !^P, !(P|^Q)} closed under ^ * + ? / | to operator depth 1 (%d paths) on every graph with <=3 triples over "
                        "subjects {A,B} x {P,Q} x objects {A,B,\"\",\"x\"} (%d graphs) x 36 end bindings (5 terms incl. an absent one, both ends), through "
                        "Graph.triples/subjects/objects, union Dataset and ReadOnlyGraphAggregate; every closure of a depth-1 path on all those graphs; depth 2 (%d paths) on a fixed family of %d graphs; SPARQL "
-                       "SELECT on %d graphs. Oracle: relation algebra. Non-trivial: non-empty relation or a falsy/absent bound end." % (
+                       "SELECT on %d graphs; for every depth-<=1 path object, every larger path the operator / constructor API builds from it (operand left and right) is evaluated and the operand re-evaluated. Oracle: relation algebra. Non-trivial: non-empty relation or a falsy/absent bound end." % (
                            len(d1), len(g3), len(d2), len(fam), len(sp)))
     ctx.sample({"path": ["graph", [["A", "P", "Lempty"]], ["plus", ["iri", "P"]], "A", "Lempty", "triples"]})
     ctx.assumptions += ["alternative and sequence paths are compared as sets; the no-duplicates clause is applied to closures (top-level * + ?)",
@@ -316,6 +387,9 @@ def _tuplify(p):
 
 
 def replay(ctx, case):
+    if "composition" in case:
+        config, triples, p = case["composition"]
+        return [{"sig": sig, "case": case, "detail": det} for sig, det in check_composition(config, [tuple(t) for t in triples], _tuplify(p), horizon=30.0)]
     config, triples, p, s, o, api = case["path"]
     triples = [tuple(t) for t in triples]
     v = check_case(config, triples, _tuplify(p), s, o, api=api, horizon=30.0)
